@@ -345,4 +345,292 @@ theorem qualLoop_take : ∀ (q : Bytes) (n : Nat) (ks : KS) (acc : Bytes) (y : B
     rw [qualLoop_some n acc h1, if_pos hlt, ha]
     simpa using h4
 
+/-! ## `ks_getuntil` -/
+
+theorem tw_app_stop {α} (p : α → Bool) : ∀ (cur X : List α) (d : α) (r : List α), cur.dropWhile p = d :: r →
+    (cur ++ X).takeWhile p = cur.takeWhile p ∧ (cur ++ X).dropWhile p = d :: (r ++ X) := by
+  intro cur
+  induction cur with
+  | nil => intro X d r h; simp at h
+  | cons a cur ih =>
+    intro X d r h
+    by_cases ha : p a = true
+    · simp only [List.dropWhile_cons, ha, if_true] at h
+      obtain ⟨h1, h2⟩ := ih X d r h
+      simp [ha, h1, h2]
+    · simp only [List.dropWhile_cons, ha] at h
+      simp only [Bool.false_eq_true, if_false, List.cons.injEq] at h
+      obtain ⟨rfl, rfl⟩ := h
+      simp [ha]
+
+theorem tw_app_all {α} (p : α → Bool) : ∀ (cur X : List α), cur.dropWhile p = [] →
+    (cur ++ X).takeWhile p = cur ++ X.takeWhile p ∧ (cur ++ X).dropWhile p = X.dropWhile p ∧
+      cur.takeWhile p = cur := by
+  intro cur
+  induction cur with
+  | nil => intro X _; simp
+  | cons a cur ih =>
+    intro X h
+    by_cases ha : p a = true
+    · simp only [List.dropWhile_cons, ha, if_true] at h
+      obtain ⟨h1, h2, h3⟩ := ih X h
+      simp [ha, h1, h2, h3]
+    · simp [ha] at h
+
+/-- the delimiter is found: the string is what precedes it, whatever the buffer boundaries -/
+theorem guLoop_found (sep : UInt8 → Bool) : ∀ (next : List Rd) (cur : Bytes) (e : Bool) (b : UInt8) (acc : Bytes)
+    (s : UInt8) (t : Bytes), GoodS e next → (cur ++ flat next).dropWhile (fun c => !sep c) = s :: t →
+    ∃ ks', guLoop sep next cur e b acc = (acc ++ (cur ++ flat next).takeWhile (fun c => !sep c), s, ks') ∧
+      Good ks' ∧ restOf ks' = t := by
+  intro next
+  induction next with
+  | nil =>
+    intro cur e b acc s t hg h
+    simp only [flat, List.append_nil] at h ⊢
+    unfold guLoop
+    simp only [h]
+    exact ⟨_, rfl, hg, by simp [restOf, flat]⟩
+  | cons rd rest ih =>
+    intro cur e b acc s t hg h
+    cases hd : cur.dropWhile (fun c => !sep c) with
+    | cons d r =>
+      obtain ⟨h1, h2⟩ := tw_app_stop (fun c => !sep c) cur (flat (rd :: rest)) d r hd
+      rw [h2] at h
+      simp only [List.cons.injEq] at h
+      obtain ⟨rfl, rfl⟩ := h
+      unfold guLoop
+      simp only [hd, h1]
+      exact ⟨_, rfl, hg, by simp [restOf]⟩
+    | nil =>
+      obtain ⟨h1, h2, h3⟩ := tw_app_all (fun c => !sep c) cur (flat (rd :: rest)) hd
+      rcases hg with ⟨_, hn⟩ | ⟨he, hn⟩
+      · cases hn
+      · subst he
+        cases rd with
+        | fail => exact absurd hn (by simp [GoodNext])
+        | short bb =>
+          have hr : rest = [] := hn
+          subst hr
+          have hf : flat [Rd.short bb] = bb ++ flat [] := by simp [flat]
+          rw [h2, hf] at h
+          rw [hf] at h1
+          obtain ⟨ks', h4, h5, h6⟩ := ih bb true (bb.headD b) (acc ++ cur) s t (Or.inl ⟨rfl, rfl⟩) h
+          refine ⟨ks', ?_, h5, h6⟩
+          unfold guLoop
+          simp only [hd, h3, Bool.false_eq_true, if_false, h4, h1, hf, List.append_assoc]
+        | full c r =>
+          have hf : flat (Rd.full c r :: rest) = (c :: r) ++ flat rest := by simp [flat]
+          rw [h2, hf] at h
+          rw [hf] at h1
+          obtain ⟨ks', h4, h5, h6⟩ := ih (c :: r) false c (acc ++ cur) s t (Or.inr ⟨rfl, hn⟩) h
+          refine ⟨ks', ?_, h5, h6⟩
+          unfold guLoop
+          simp only [hd, h3, Bool.false_eq_true, if_false, h4, h1, hf, List.append_assoc]
+
+theorem getuntil_found (sep : UInt8 → Bool) (ks : KS) (s : UInt8) (t : Bytes) (hg : Good ks)
+    (h : (restOf ks).dropWhile (fun c => !sep c) = s :: t) :
+    ∃ ks', getuntil sep ks = ⟨((restOf ks).takeWhile (fun c => !sep c)).length,
+        (restOf ks).takeWhile (fun c => !sep c), s, ks'⟩ ∧ Good ks' ∧ restOf ks' = t := by
+  obtain ⟨ks', h1, h2, h3⟩ := guLoop_found sep ks.next ks.cur ks.isEof ks.buf0 [] s t hg h
+  refine ⟨ks', ?_, h2, h3⟩
+  have hne : (ks.cur.isEmpty && ks.isEof) = false := by
+    cases hc : ks.cur with
+    | cons a r => simp
+    | nil =>
+      cases he : ks.isEof with
+      | false => simp
+      | true =>
+        exfalso
+        rcases hg with ⟨_, hn⟩ | ⟨he', _⟩
+        · simp [restOf, hc, hn, flat] at h
+        · rw [he] at he'; cases he'
+  unfold getuntil
+  simp only [hne, Bool.false_eq_true, if_false, h1, restOf, List.nil_append]
+
+/-- first occurrence of a delimiter in a list -/
+theorem tw_first {α} (p : α → Bool) : ∀ (l : List α) (s : α) (t : List α), (∀ c ∈ l, p c = true) → p s = false →
+    (l ++ s :: t).takeWhile p = l ∧ (l ++ s :: t).dropWhile p = s :: t := by
+  intro l
+  induction l with
+  | nil => intro s t _ hs; simp [hs]
+  | cons a l ih =>
+    intro s t hl hs
+    have ha : p a = true := hl a (by simp)
+    obtain ⟨h1, h2⟩ := ih s t (fun c hc => hl c (by simp [hc])) hs
+    simp [ha, h1, h2]
+
+/-! ## `kseq_read` after the name and the comment -/
+
+/-- `kseq_read` from the sequence loop on, the name and the comment being known -/
+def kseqTail (lc : UInt8) (nm cm : Bytes) (ks1 : KS) : Int × Rec × St :=
+  let s := seqLoop ks1 []
+  let lc2 := match s.1 with
+    | some c => if c == 62 || c == 64 then c else lc
+    | none => lc
+  if s.1 != some 43 then ((s.2.1.length : Int), ⟨nm, cm, s.2.1, []⟩, ⟨lc2, s.2.2⟩) else
+  let k := skipLine s.2.2
+  match k.1 with
+  | none => (-2, ⟨nm, cm, s.2.1, []⟩, ⟨lc2, k.2⟩)
+  | some _ =>
+    let q := qualLoop s.2.1.length k.2 []
+    if s.2.1.length != q.1.length then (-2, ⟨nm, cm, s.2.1, q.1⟩, ⟨0, q.2⟩)
+    else ((s.2.1.length : Int), ⟨nm, cm, s.2.1, q.1⟩, ⟨0, q.2⟩)
+
+theorem kseqBody_eq (lc : UInt8) (ks : KS) (hg : ¬ (getuntil isSpace ks).ret < 0) :
+    kseqBody lc ks = kseqTail lc (getuntil isSpace ks).str (cmOf (getuntil isSpace ks)).str
+      (cmOf (getuntil isSpace ks)).ks := by
+  simp only [kseqBody, hg, if_false, cmOf, kseqTail]
+  rfl
+
+theorem mem_of_dropWhile {α} (p : α → Bool) {l : List α} {x : α} (h : x ∈ l.dropWhile p) : x ∈ l := by
+  have := List.takeWhile_append_dropWhile (p := p) (l := l)
+  rw [← this]
+  exact List.mem_append.mpr (Or.inr h)
+
+/-- the header line: name = up to the first `isspace` byte, comment = what follows that byte up to the
+first LF — whatever the buffer boundaries -/
+theorem kseqBody_head (ks : KS) (W R : Bytes) (hg : Good ks) (hr : restOf ks = W ++ 10 :: R)
+    (hW : ∀ c ∈ W, c ≠ 10) :
+    ∃ ks1, Good ks1 ∧ restOf ks1 = R ∧ ∀ lc, kseqBody lc ks =
+      kseqTail lc (W.takeWhile (fun c => !isSpace c)) (W.dropWhile (fun c => !isSpace c)).tail ks1 := by
+  have h10 : (fun c => !isSpace c) 10 = false := by decide
+  cases hd : W.dropWhile (fun c => !isSpace c) with
+  | nil =>
+    obtain ⟨h1, h2, h3⟩ := tw_app_all (fun c => !isSpace c) W (10 :: R) hd
+    have h2' : (restOf ks).dropWhile (fun c => !isSpace c) = 10 :: R := by
+      rw [hr, h2]; simp [h10]
+    have h1' : (restOf ks).takeWhile (fun c => !isSpace c) = W := by
+      rw [hr, h1]; simp [h10]
+    obtain ⟨ks1, hgu, hg1, hr1⟩ := getuntil_found isSpace ks 10 R hg h2'
+    refine ⟨ks1, hg1, hr1, fun lc => ?_⟩
+    have hret : ¬ (getuntil isSpace ks).ret < 0 := by
+      rw [hgu]; simp only; omega
+    rw [kseqBody_eq lc ks hret, hgu, h1', h3]
+    simp [cmOf]
+  | cons s w' =>
+    obtain ⟨h1, h2⟩ := tw_app_stop (fun c => !isSpace c) W (10 :: R) s w' hd
+    rw [← hr] at h1 h2
+    obtain ⟨ksg, hgu, hgg, hrg⟩ := getuntil_found isSpace ks s (w' ++ 10 :: R) hg h2
+    have hsW : s ∈ W := mem_of_dropWhile _ (by rw [hd]; simp)
+    have hw' : ∀ c ∈ w', c ≠ 10 := fun c hc => hW c (mem_of_dropWhile _ (by rw [hd]; simp [hc]))
+    have hs10 : (s != 10) = true := by simpa using hW s hsW
+    obtain ⟨t1, t2⟩ := tw_first (fun c => !(c == 10)) w' 10 R (fun c hc => by simpa using hw' c hc) (by decide)
+    rw [← hrg] at t1 t2
+    obtain ⟨ks1, hgu1, hg1, hr1⟩ := getuntil_found (fun c => c == 10) ksg 10 R hgg t2
+    refine ⟨ks1, hg1, hr1, fun lc => ?_⟩
+    have hret : ¬ (getuntil isSpace ks).ret < 0 := by
+      rw [hgu]; simp only; omega
+    rw [kseqBody_eq lc ks hret, hgu, h1]
+    simp only [cmOf, hs10, if_true, hgu1, t1, List.tail_cons]
+
+/-- FASTA, another record follows: the sequence loop stops on its `>` -/
+theorem kseqTail_gt (lc : UInt8) (nm cm : Bytes) (ks1 : KS) (l Z : Bytes) (hg : Good ks1)
+    (hr : restOf ks1 = l ++ 62 :: Z) (hl : Plain l) :
+    ∃ ks', kseqTail lc nm cm ks1 = (((l.filter isGraph).length : Int), ⟨nm, cm, l.filter isGraph, []⟩, ⟨62, ks'⟩) ∧
+      Good ks' ∧ restOf ks' = Z := by
+  obtain ⟨ks', h1, h2, h3⟩ := seqLoop_stop l ks1 [] 62 Z hg hr hl (by decide)
+  refine ⟨ks', ?_, h2, h3⟩
+  simp only [kseqTail, h1, List.nil_append]
+  rfl
+
+/-- FASTA, last record: the sequence loop runs into the end of the stream -/
+theorem kseqTail_eof (lc : UInt8) (nm cm : Bytes) (ks1 : KS) (l : Bytes) (hg : Good ks1)
+    (hr : restOf ks1 = l) (hl : Plain l) :
+    ∃ ks', kseqTail lc nm cm ks1 = (((l.filter isGraph).length : Int), ⟨nm, cm, l.filter isGraph, []⟩, ⟨lc, ks'⟩) ∧
+      Good ks' ∧ restOf ks' = [] ∧ ks'.isEof = true ∧ ks'.cur = [] := by
+  obtain ⟨ks', h1, h2⟩ := seqLoop_end l ks1 [] hg hr hl
+  refine ⟨ks', ?_, h2⟩
+  simp only [kseqTail, h1, List.nil_append]
+  rfl
+
+/-- FASTQ: sequence up to `+`, the rest of that line skipped, the quality string, one byte dropped -/
+theorem kseqTail_plus (lc : UInt8) (nm cm : Bytes) (ks1 : KS) (l pl e q Y : Bytes) (hg : Good ks1)
+    (hr : restOf ks1 = l ++ 43 :: (pl ++ 10 :: (e ++ (q ++ Y)))) (hl : Plain l) (hpl : ∀ c ∈ pl, c ≠ 10)
+    (he : ∀ c ∈ e, inQ c = false) (hq : ∀ c ∈ q, inQ c = true) (hlen : q.length = (l.filter isGraph).length)
+    (hpos : 0 < q.length) :
+    ∃ ks', kseqTail lc nm cm ks1 = (((l.filter isGraph).length : Int), ⟨nm, cm, l.filter isGraph, q⟩, ⟨0, ks'⟩) ∧
+      Good ks' ∧ restOf ks' = Y.drop 1 := by
+  obtain ⟨ks2, h1, g2, r2⟩ := seqLoop_stop l ks1 [] 43 _ hg hr hl (by decide)
+  obtain ⟨ks3, h2, g3, r3⟩ := skipLine_stop pl ks2 _ g2 r2 hpl
+  obtain ⟨ks4, h3, g4, r4⟩ := qualLoop_skip e (l.filter isGraph).length ks3 [] _ g3 r3 he
+    (by simp only [List.length_nil]; omega)
+  obtain ⟨ks', h4, g5, r5⟩ := qualLoop_take q (l.filter isGraph).length ks4 [] Y g4 r4 hq
+    (by simp only [List.length_nil]; omega)
+  refine ⟨ks', ?_, g5, r5⟩
+  simp only [List.nil_append] at h1 h4
+  simp only [kseqTail, h1, h2, h3, h4, hlen]
+  simp
+
+/-! ## `kseq_read` and the loop of `_FastseqReader` -/
+
+theorem kseqBody_end (lc : UInt8) (ks : KS) (hc : ks.cur = []) (he : ks.isEof = true) :
+    (kseqBody lc ks).1 = -1 := by
+  have : getuntil isSpace ks = ⟨-1, [], 0, ks⟩ := by
+    simp [getuntil, hc, he]
+  simp [kseqBody, this]
+
+/-- `last_char = 0`: bytes are skipped up to the next `>` or `@` -/
+theorem kseqRead_hdr (ks : KS) (e : Bytes) (h : UInt8) (R : Bytes) (hg : Good ks) (hr : restOf ks = e ++ h :: R)
+    (he : ∀ c ∈ e, (c == 62 || c == 64) = false) (hh : (h == 62 || h == 64) = true) :
+    ∃ ks1, Good ks1 ∧ restOf ks1 = R ∧ kseqRead ⟨0, ks⟩ = kseqBody h ks1 := by
+  obtain ⟨ks1, h1, h2, h3⟩ := skipToHeader_stop e ks h R hg hr he hh
+  refine ⟨ks1, h2, h3, ?_⟩
+  simp [kseqRead, h1]
+
+theorem kseqRead_end0 (ks : KS) (e : Bytes) (hg : Good ks) (hr : restOf ks = e)
+    (he : ∀ c ∈ e, (c == 62 || c == 64) = false) : (kseqRead ⟨0, ks⟩).1 = -1 := by
+  obtain ⟨ks1, h1⟩ := skipToHeader_end e ks hg hr he
+  simp [kseqRead, h1]
+
+theorem kseqRead_nz (lc : UInt8) (ks : KS) (h : lc ≠ 0) : kseqRead ⟨lc, ks⟩ = kseqBody lc ks := by
+  have : (lc == 0) = false := by simpa using h
+  simp [kseqRead, this]
+
+theorem nextFastSek_of_pos (early : Bool) (st : St) (h : 0 < (kseqRead st).1) :
+    nextFastSek .clean early st = (1, (kseqRead st).2.1, (kseqRead st).2.2) := by
+  have : ¬ (kseqRead st).1 ≤ 0 := by omega
+  simp [nextFastSek, this]
+
+theorem nextFastSek_of_end (early : Bool) (st : St) (h : (kseqRead st).1 = -1) :
+    (nextFastSek .clean early st).1 = 0 := by
+  have he : errnum .clean early (kseqRead st).2.2.ks = .clean := by
+    unfold errnum; split <;> rfl
+  simp [nextFastSek, h, he]
+
+/-- a record has been read: it is appended and the loop goes on from the new state -/
+theorem readLoop_step (early : Bool) (st : St) (acc : List Rec) (h : 0 < (kseqRead st).1) :
+    readLoop .clean early st acc = readLoop .clean early (kseqRead st).2.2 (acc ++ [(kseqRead st).2.1]) := by
+  have hn := nextFastSek_of_pos early st h
+  have hlt : size (kseqRead st).2.2.ks < size st.ks := kseqRead_pos_lt st h
+  conv => lhs; rw [readLoop]
+  simp only [hn]
+  simp [hlt]
+
+/-- `kseq_read` answers -1 on a clean stream: regular end -/
+theorem readLoop_stop (early : Bool) (st : St) (acc : List Rec) (h : (kseqRead st).1 = -1) :
+    readLoop .clean early st acc = (acc, .ok) := by
+  have hn := nextFastSek_of_end early st h
+  rw [readLoop]
+  simp [hn]
+
+/-- `kseq_read` answers 0 (a record without sequence) on a clean stream: `log.Fatalf` with code -4 -/
+theorem readLoop_empty_seq (early : Bool) (st : St) (acc : List Rec) (h : (kseqRead st).1 = 0) :
+    readLoop .clean early st acc = (acc, .fatal (-4)) := by
+  have he : errnum .clean early (kseqRead st).2.2.ks = .clean := by
+    unfold errnum; split <;> rfl
+  have hn : (nextFastSek .clean early st).1 = -4 := by
+    simp [nextFastSek, h, he]
+  rw [readLoop]
+  simp [hn]
+
+/-- `kseq_read` answers -2 (quality string shorter than the sequence) on a clean stream: `log.Fatalf` -/
+theorem readLoop_short_qual (early : Bool) (st : St) (acc : List Rec) (h : (kseqRead st).1 = -2) :
+    readLoop .clean early st acc = (acc, .fatal (-2)) := by
+  have he : errnum .clean early (kseqRead st).2.2.ks = .clean := by
+    unfold errnum; split <;> rfl
+  have hn : (nextFastSek .clean early st).1 = -2 := by
+    simp [nextFastSek, h, he]
+  rw [readLoop]
+  simp [hn]
+
 end ObiVerif.Kseq
